@@ -187,6 +187,12 @@ def df_menu():
     add("filter_out", "eq", lambda d, a: d.filter_out(s="a"))
     add("slice", "rows", lambda d, a: d.slice(rows=list(range(d.nrow))[::-1]))
     add("slice", "all", lambda d, a: d.slice())
+    # rows / cols given as range objects (a range invites an implementation to index with a basic slice, which gives views; seeded C06-r12-1)
+    add("slice", "rows as range", lambda d, a: d.slice(rows=range(d.nrow)))
+    add("slice", "rows as inner range", lambda d, a: d.slice(rows=range(min(1, d.nrow), d.nrow)))
+    add("slice", "rows as range, cols", lambda d, a: d.slice(rows=range(d.nrow), cols=[1, 0]))
+    add("slice", "cols as range", lambda d, a: d.slice(cols=range(d.ncol)))
+    add("slice_off", "rows as range", lambda d, a: d.slice_off(rows=range(min(1, d.nrow))))
     add("slice", "cols", lambda d, a: d.slice(cols=[1, 0]))
     add("slice", "cols as int64 array", lambda d, a: d.slice(cols=a[0]), "idx")
     add("slice", "rows as int64 array", lambda d, a: d.slice(rows=a[0][a[0] < d.nrow] if d.nrow else a[0][:0]), "idx")
